@@ -35,16 +35,6 @@ func init() {
 	}
 }
 
-// FreePort returns a currently free loopback port.
-func FreePort() int {
-	ln, err := net.Listen("tcp", "127.0.0.1:0")
-	if err != nil {
-		panic(err)
-	}
-	defer ln.Close()
-	return ln.Addr().(*net.TCPAddr).Port
-}
-
 // UniqueName returns a fresh service name (stats are keyed by service name).
 func UniqueName(prefix string) string {
 	return fmt.Sprintf("%s_%d_%d", prefix, os.Getpid(), atomic.AddInt64(&svcSeq, 1))
